@@ -1,0 +1,9 @@
+//go:build !verif
+
+package ugo
+
+// verifSync marks a named synchronisation point of the abort/cancellation
+// protocol. It is a no-op unless the package is built with the "verif" tag,
+// where a test harness may install a hook to place concurrent Abort calls at
+// the point deterministically.
+func verifSync(string, *VM) {}
